@@ -120,6 +120,32 @@ def run(call):
             q2 = SymmetricQuantizer.apply(q.dequantize(), q.qtype, None, s)
             r["requant_codes"] = code_bytes(q2._data)["data"]
         t = None
+    elif fn == "quantize_weight_history":
+        # the scale / codes are a function of the VALUES: quantize a Parameter, update it in place the way optimizers and EMA
+        # code do (through .data: no version bump; under no_grad: version bump), quantize again, compare with a fresh tensor
+        args = (QT[call["qtype"]], call["axis"], call.get("group_size"), OPT[call.get("optimizer")])
+        p = torch.nn.Parameter(t.clone(), requires_grad=call.get("requires_grad", True))
+        ctx = torch.no_grad() if call.get("no_grad_calls") else torch.enable_grad()
+        with ctx:
+            quantize_weight(p, *args)
+        upd = call["update"]
+        if upd == "data_mul":
+            p.data.mul_(8.0)
+        elif upd == "data_shrink":
+            p.data.mul_(0.0625)
+        elif upd == "data_copy":
+            p.data.copy_(torch.flip(t, dims=[0]) * 3)
+        elif upd == "data_index":
+            p.data[0] = p.data[0] * 16
+        elif upd == "no_grad_mul":
+            with torch.no_grad():
+                p.mul_(8.0)
+        with ctx:
+            q2 = quantize_weight(p, *args)
+            qf = quantize_weight(p.detach().clone(), *args)
+        o2, of = observe(q2), observe(qf)
+        r = {"same": all(o2[k] == of[k] for k in ("codes", "scale", "zp", "deq")), "after_update": {k: o2[k] for k in ("scale",)}, "fresh": {k: of[k] for k in ("scale",)}}
+        t = None
     elif fn == "qtype_table":
         r = {"table": {n: [q.is_floating_point, q.bits, str(q.dtype), (torch.finfo(q.dtype) if q.is_floating_point else torch.iinfo(q.dtype)).min, (torch.finfo(q.dtype) if q.is_floating_point else torch.iinfo(q.dtype)).max] for n, q in QT.items()}}
     else:
